@@ -31,6 +31,10 @@ def parseArg (t : String) : Option Str :=
   else if t.startsWith "--" ∧ t.length > 2 then none
   else some (t.replace "\\s" " ").toList
 
+/-- an argument of a command run through the shell's parser (`subjobs`, `subwait`): only characters that need no quoting -/
+def parseSafeArg (t : String) : Option Str :=
+  if t.length > 0 ∧ t.toList.all (fun c => c.isAlphanum || c == '%' || c == '-' || c == '+') then some t.toList else none
+
 def parseBool (t : String) : Option Bool :=
   if t = "1" then some true else if t = "0" then some false else none
 
@@ -97,6 +101,9 @@ def parseOp (t : String) : Option Op :=
   | ["rmif", p, r] => do pure (.removeIf (← parsePred p) (← parseBool r))
   | ["xif", p, r] => do pure (.extractIf (← parsePred p) (← parseBool r))
   | ["xtake", n, p, r] => do pure (.extractTake (← n.toNat?) (← parsePred p) (← parseBool r))
+  | ["promptx", m, i] => do pure (.promptClosed (← parseBool m) (← parseBool i))
+  | "subjobs" :: args => do pure (.subJobs (← args.mapM parseSafeArg))
+  | "subwait" :: args => do pure (.subWait (← args.mapM parseSafeArg))
   | ["rmfirst", k, p, r] => do pure (.removeIfFirst (← k.toNat?) (← parsePred p) (← parseBool r))
   | ["add", p, st] => do pure (.addJob (← p.toNat?) (← parseState st))
   | ["rep1", i] => do pure (.reportOne (← i.toNat?))
@@ -162,6 +169,9 @@ def opResult (s : JobList) : Op → String
        | .error _ => "amb")
   | .amp pid m i name => showOut (ampersand s pid m i name).1
   | .prompt m i => encChars (promptReport s m i).1
+  | .promptClosed m i => encChars (promptReportClosed s m i).1
+  | .subJobs args => showOut (subJobs s args)
+  | .subWait args => showOut (subWait s args)
   | .waitEv evs args => showOut (waitBuiltinEv s evs args).1
   | .kres arg =>
     (match killTarget s arg with
